@@ -234,6 +234,20 @@ def main(chk):
     pyk = dict((c.name, c) for c in c08.kernel_classes(M.py(c08.KER)))
     c08.rule_cutoff(chk, pyk)
     c08.rule_monotone(chk, pyk)
+    # "every neighbour algorithm": the sums only cancel when j is a neighbour of i exactly when i is one of j - the symmetric acceptance test, no candidate dropped
+    # on one side only, the list post-processing keeps every entry (rules shared with C01 / C05); pair terms are computed in per-thread scratch (shared with C02)
+    def load(name):
+        sp_ = importlib.util.spec_from_file_location(name + 'mod', os.path.join(os.path.dirname(os.path.abspath(__file__)), name + '.py'))
+        m_ = importlib.util.module_from_spec(sp_)
+        sp_.loader.exec_module(m_)
+        return m_
+    c01, c05, c02 = load('c01'), load('c05'), load('c02')
+    ci1, concrete1 = c01.load_classes()
+    c01.rule_acceptance(chk, ci1, concrete1)
+    c01.rule_no_pruning(chk, ci1, concrete1)
+    ci5, classes5 = c05.nnps_classes()
+    c05.rule_sorting(chk, ci5, classes5, [c.name for r, c in concrete1 if c.name != 'DictBoxSortNNPS'])
+    c02.rule_scratch(chk)
     ker = M.py('pysph/base/kernels.py')
     nk = 0
     for kc in M.classes(ker):
